@@ -83,6 +83,7 @@ let lang_fuel = nat_of_int 4000
 let () =
   let cases = ref 0 and ops = ref 0 and lineno = ref 0 and samples = ref 0 in
   let nontrivial = Hashtbl.create 1024 in
+  let oracle_cache : (string, nat list list option) Hashtbl.t = Hashtbl.create 16 in
   let st = Hashtbl.create 16 in
   let bump k d = Hashtbl.replace st k (d + try Hashtbl.find st k with Not_found -> 0) in
   let setmax k v = if v > (try Hashtbl.find st k with Not_found -> 0) then Hashtbl.replace st k v in
@@ -119,7 +120,13 @@ let () =
         setmax "max_terminals" (String.length terms);
         if !prec <> "" then bump "cases_with_precedence" 1;
         if List.exists (fun (p : prod0) -> p.body = []) prods then bump "grammars_with_epsilon" 1;
-        let oracle = lazy (lang_upto lang_fuel g (nat_of_int maxlen)) in
+        let oracle = lazy (
+          let key = hf.(1) ^ " " ^ hf.(4) ^ " " ^ string_of_int maxlen in
+          match Hashtbl.find_opt oracle_cache key with
+          | Some o -> o
+          | None -> let o = lang_upto lang_fuel g (nat_of_int maxlen) in
+            if Hashtbl.length oracle_cache > 64 then Hashtbl.reset oracle_cache;
+            Hashtbl.replace oracle_cache key o; o) in
         let tables : (string, parsed_table) Hashtbl.t = Hashtbl.create 3 in
         let status : (string, string * int) Hashtbl.t = Hashtbl.create 3 in
         let opno = ref 0 in
